@@ -321,7 +321,7 @@ ROUND7 = {
 ROUND8 = {
     "C01": "No direction bin width from the extent max(dir) - min(dir) of the axis.",
     "C03": "No partition list rebuilt through a collection keyed by a computed statistic (equal Hs collide).",
-    "C04": "No partition list rebuilt through a collection keyed by a computed statistic (a basin found by the watershed would be dropped).",
+    "C04": "No partition list rebuilt through a collection keyed by a computed statistic (a basin found by the watershed would be dropped); a bin is queued at most once per visit (fifo_add of the visited bin inside its neighbour loop is followed by break: the FIFO is a ring of nspec slots).",
     "C05": "Peak direction taken on the spectrum as stored (shared with C02); the native watershed-line reassignment double-buffers (shared with C04); no width from the axis extent.",
     "C09": "Band-limit validation tests limits with `is not None`, never by truthiness.",
     "C10": "No hidden absolute tolerance (np.isclose / allclose without atol=0) on spectrum-derived quantities.",
